@@ -126,7 +126,7 @@ PROPS = {
                      "multihashes and altered long-form DIDs + re-serialisation and self-certification oracles on the implementation",
     },
     "C09": {
-        "cmd": "c09", "seed": 109, "gentie": 0, "corr": ["Jws"], "coq_dirs": ["Jws", "Hash", "Corr/Jws", "Props/C09"],
+        "cmd": "c09", "seed": 109, "gentie": 0, "corr": ["Jws"], "coq_dirs": ["Jws", "Hash", "Json", "Parser", "Corr/Jws", "Props/C09"],
         "rule": "real keys of the five types; JWS built independently of the library (own base64url/compact code, raw r||s) and by the "
                 "library's signing utilities; verified under the matching key, every other key and malformed variants of the JWK "
                 "(unknown/empty/lower-case kty, unknown/other curve, short/long/missing coordinates, off-curve, swapped); every n-th "
@@ -135,7 +135,9 @@ PROPS = {
                 "members); malformed compact strings incl. Go's lenient base64 cases; run under recover; verdict compared with the "
                 "model, whose crypto fact is evaluated with Go's crypto packages directly on the model's signing input; non-trivial = "
                 "not the plain genuine case; oracles on the implementation: genuine accepted, altered/foreign rejected, no panic",
-        "trusted_base": ["modelled, not verified (oracles): ECDSA/EdDSA verification and curve arithmetic, go-jose JSON and JWK decoding"],
+        "trusted_base": ["modelled, not verified (oracles): ECDSA/EdDSA verification and curve arithmetic, go-jose JWK decoding; the protected header is "
+                         "decoded inside Coq (Jws/FromBytes.v over the encoding/json + go-jose decoder model Json/GoJson.v) and must equal the header facts "
+                         "go-jose produced, for every case"],
         "assumptions": ["the signature primitives are correct and unforgeable (never a premise of a theorem: statements reduce acceptance "
                         "to the primitive's verdict on the exact signing input)"],
         "level_text": "Theorems: acceptance implies the primitive verified the signature over exactly b64(re-serialised header).b64(payload) "
@@ -143,7 +145,8 @@ PROPS = {
                       "(injectivity via base64 round trip, '.' not in the alphabet); compact build/parse round trip; sign-then-verify; "
                       "rejection of every malformed class. Partial: the primitives themselves are exercised (tamper enumeration, foreign "
                       "keys, twin), not proved."
-                      " Primitive layer (Jws/Primitive.v): with the signature primitive as a function V, acceptance means V accepted exactly the signing input computed from the decoded header and payload; two strings that verify under one key and differ in header or payload exhibit two different messages accepted by V (tamper evidence); acceptance under another key means V accepted that very message under it.",
+                      " Primitive layer (Jws/Primitive.v): with the signature primitive as a function V, acceptance means V accepted exactly the signing input computed from the decoded header and payload; two strings that verify under one key and differ in header or payload exhibit two different messages accepted by V (tamper evidence); acceptance under another key means V accepted that very message under it."
+                      " From bytes (Jws/FromBytes.v): the verdict as a function of the compact string alone, header facts computed in Coq; soundness and forged-rejection restated for it.",
         "level_note": "Trusted: Coq kernel + vm_compute; harness incl. its own JWS builder and direct use of Go crypto for the crypto fact; "
                       "hook pkg/verifhooks (build tag verif).",
         "technique": "Coq proof over a model of compact JWS parsing / signing input / verification dispatch + vm_compute correspondence "
